@@ -28,6 +28,10 @@ def apply_scenarios(rng, n):
                     o['cb_dur'] = rng.choice([0.5, 1.0])
         for op in ops[1:]:
             op.pop('join_first', None)
+        if len(ops) > 1 and ops[0].get('task_timeout') and rng.random() < .6:
+            # the batch that started the workers had a timeout; a later batch has none and contains a task that takes longer than that
+            ops[1].pop('task_timeout', None)
+            ops[1]['dur'] = {'kind': 'map', 'map': {str(rng.randrange(len(ops[1]['tasks']))): rng.choice([0.5, 1.0])}, 'default': 0.01}
         if ops[0].get('join_first') and len(ops) > 1:
             ops[0].pop('join_first')
         sc = {'seed': rng.randint(0, 10 ** 6), 'pool': pool, 'ops': ops}
